@@ -4,8 +4,8 @@ from common import *
 import decl, gen, pktcases, pktprops
 
 PID = 'C19'
-TARGETS = ['Properties/C19.vo', 'Bridge/EqBridge.vo', 'Bridge/InitBridge.vo', 'Bridge/RefBridge.vo', 'Bridge/PlumbingBridge.vo']
-KERNELS = ['G10_eq', 'G15_init', 'G15b_init_structural', 'G16_ref', 'G16c_prototype', 'G17_builder', 'G19_field_ctor']
+TARGETS = ['Properties/C19.vo', 'Bridge/EqBridge.vo', 'Bridge/InitBridge.vo', 'Bridge/RefBridge.vo', 'Bridge/PlumbingBridge.vo', 'Bridge/MiscPacketBridge.vo']
+KERNELS = ['G10_eq', 'G15_init', 'G15b_init_structural', 'G16_ref', 'G16c_prototype', 'G17_builder', 'G19_field_ctor', 'G20b_packet_misc']
 PROP_FILE = 'Properties/C19.v'
 
 
